@@ -278,6 +278,36 @@ func (h *hist) pickPath(u int, action string, from []string, label string) strin
 	return rapid.SampledFrom(from).Draw(h.t, label)
 }
 
+// spell returns the path as the request will spell it: now and then with the
+// last segment in upper case (paths and patterns are case-insensitive, so the
+// reference decision and the stream are those of the lower-case path).
+func (h *hist) spell(path, label string) string {
+	if path == "" || rapid.IntRange(0, 5).Draw(h.t, label+"UpperCase") != 0 {
+		return path
+	}
+	body, slash := path, ""
+	if strings.HasSuffix(body, "/") {
+		body, slash = body[:len(body)-1], "/"
+	}
+	i := strings.LastIndex(body, "/")
+	evid.Class("spelling:upper-case-segment")
+	return body[:i+1] + strings.ToUpper(body[i+1:]) + slash
+}
+
+// neighbourClass labels paths that merely extend (or shorten) a granted pattern.
+func (h *hist) neighbourClass(path string) {
+	switch strings.TrimPrefix(path, h.sh.ns) {
+	case "/ab", "/ax", "/bb", "/a/newer":
+		evid.Class("path:segment-extended")
+	case "/a1/y":
+		evid.Class("path:segment-extended-deeper")
+	case "/b/", "/c/":
+		evid.Class("path:trailing-slash")
+	case "/cam":
+		evid.Class("path:pattern-parent")
+	}
+}
+
 func (h *hist) ntFlip(a *attempt, u int, action, path string) {
 	if h.m.flipped[flipKey(u, action, path)] {
 		a.NT = append(a.NT, "after-change:"+action)
@@ -292,6 +322,10 @@ func (h *hist) record(a *attempt, extra ...any) {
 	}
 	evid.Class("cred:" + a.Cred)
 	evid.Class("expect:" + a.Expect)
+	h.neighbourClass(a.Path)
+	if a.Path2 != "" {
+		h.neighbourClass(a.Path2)
+	}
 	if len(a.NT) > 0 {
 		seen := map[string]bool{}
 		for _, n := range a.NT {
@@ -349,15 +383,25 @@ func (h *hist) attemptHTTPMedia(entry string) {
 	allow := valid && h.m.allow(u, "pull", path)
 	a := &attempt{Entry: entry, Cred: kind, User: u, User2: u, Path: path, Expect: expectWord(allow)}
 	h.ntFlip(a, u, "pull", path)
+	slashed := strings.HasSuffix(path, "/")
+	if slashed && entry == "hls-segment" {
+		// the segment URIs of a stream whose path ends in '/' contain "//", which the
+		// HTTP mux redirects away: such a stream has no usable segment URL at all
+		entry, a.Entry = "hls-playlist", "hls-playlist"
+	}
+	url := h.spell(path, "path") // how the request spells the path
 	var o obs
 	switch entry {
 	case "http-flv":
-		o = h.sh.httpFLV(path, cred)
+		o = h.sh.httpFLV(url, cred)
 	case "ws-flv":
-		o = h.sh.wsFLV(path, cred)
+		o = h.sh.wsFLV(url, cred)
 	case "hls-playlist":
 		var uris []string
-		o, uris = h.sh.hlsPlaylist(path, cred)
+		o, uris = h.sh.hlsPlaylist(url, cred)
+		if slashed {
+			uris = nil
+		}
 		h.note(map[string]any{"op": "access", "attempt": a, "observed": o})
 		h.record(a)
 		if !allow && (o.Served || o.Status == 200) {
@@ -375,7 +419,7 @@ func (h *hist) attemptHTTPMedia(entry string) {
 				so := h.sh.hlsSegmentListed(uri)
 				if so.Status == 404 && time.Now().Before(deadline) {
 					time.Sleep(time.Millisecond)
-					if o2, uris2 := h.sh.hlsPlaylist(path, cred); o2.Served {
+					if o2, uris2 := h.sh.hlsPlaylist(url, cred); o2.Served {
 						uris = uris2
 						goto again
 					}
@@ -408,6 +452,7 @@ type rtspPlan struct {
 	// attributes to the session at that point
 	who   []int
 	valid []bool
+	canon []string // the canonical (lower-case) path of each request
 }
 
 func (h *hist) attemptRTSP() {
@@ -419,8 +464,13 @@ func (h *hist) attemptRTSP() {
 	a := &attempt{Entry: "rtsp-tcp", Shape: shape, Cred: kind, User: u, User2: u}
 	all := append(append([]string{}, h.sh.live...), h.sh.fresh...)
 	var pl rtspPlan
+	spelled := map[string]string{}
 	add := func(method, path string, who int, auth rtspAuth, ok bool) {
-		pl.reqs = append(pl.reqs, rtspReq{Method: method, Path: path, Auth: auth})
+		if _, ok := spelled[path]; !ok {
+			spelled[path] = h.spell(path, "path")
+		}
+		pl.canon = append(pl.canon, path)
+		pl.reqs = append(pl.reqs, rtspReq{Method: method, Path: spelled[path], Auth: auth})
 		pl.who = append(pl.who, who)
 		pl.valid = append(pl.valid, ok)
 	}
@@ -484,9 +534,9 @@ func (h *hist) attemptRTSP() {
 		right := ""
 		switch rq.Method {
 		case "DESCRIBE":
-			cur, mode, restart, right = rq.Path, "play", i, "pull"
+			cur, mode, restart, right = pl.canon[i], "play", i, "pull"
 		case "ANNOUNCE":
-			cur, mode, restart, right = rq.Path, "record", i, "push"
+			cur, mode, restart, right = pl.canon[i], "record", i, "push"
 		case "SETUP":
 			right = map[string]string{"play": "pull", "record": "push"}[mode]
 		case "PLAY":
@@ -517,8 +567,8 @@ func (h *hist) attemptRTSP() {
 		if o.Published != "" {
 			h.fail("over-grant-publish", "rtsp-tcp [%s]: a dialogue that ended in PLAY left a stream registered on %s", shape, o.Published)
 		}
-		if announced := pl.reqs[0]; announced.Method == "ANNOUNCE" {
-			h.sh.settle(h.t, announced.Path)
+		if pl.reqs[0].Method == "ANNOUNCE" {
+			h.sh.settle(h.t, pl.canon[0])
 		}
 		return
 	}
@@ -590,7 +640,14 @@ func (h *hist) attemptWsRTSP() {
 		a.NT = append(a.NT, "ws-publish", "switch-path")
 	}
 	a.Expect = expectWord(allow)
-	c, err := rtspc.DialWS(withToken(h.sh.s.WS(wsPath+suffix), cred.Token, cred.HasToken), ioBound, h.sh.wsHeader(cred))
+	wsURL := h.spell(wsPath, "wsPath")
+	if a.Path2 != "" && suffix == "" {
+		p2 := h.spell(a.Path2, "path2")
+		for i := range reqs {
+			reqs[i].Path = p2
+		}
+	}
+	c, err := rtspc.DialWS(withToken(h.sh.s.WS(wsURL+suffix), cred.Token, cred.HasToken), ioBound, h.sh.wsHeader(cred))
 	h.record(a)
 	if err != nil {
 		h.note(map[string]any{"op": "access", "attempt": a, "observed": "handshake refused: " + err.Error()})
@@ -844,6 +901,9 @@ func (h *hist) attemptFocused() bool {
 			return false
 		}
 		entry := rapid.SampledFrom([]string{"http-flv", "ws-flv", "hls-playlist", "hls-segment", "rtsp-play", "ws-play", "wsp"}).Draw(h.t, "focusEntry")
+		if entry == "hls-segment" && strings.HasSuffix(path, "/") {
+			entry = "hls-playlist" // no usable segment URL, see attemptHTTPMedia
+		}
 		h.focusedPull(entry, u, path)
 	case "push":
 		h.focusedPush(rapid.SampledFrom([]string{"rtsp-publish", "rtsp-publish", "ws-publish"}).Draw(h.t, "focusEntry"), u, path)
